@@ -88,12 +88,13 @@ var c15Writers = []string{
 }
 
 type c15Case struct {
-	t    *mon.T
-	d    c15Desc
-	dag  *c15Dag
-	sel  datamodel.Node
-	selS string
-	kind string // selector kind label for coverage
+	perDagBudget bool // two Dags under one budget that each fits alone: a budget error is a violation
+	t            *mon.T
+	d            c15Desc
+	dag          *c15Dag
+	sel          datamodel.Node
+	selS         string
+	kind         string // selector kind label for coverage
 }
 
 func c15HasRepeat(log [][]byte) bool {
@@ -165,6 +166,11 @@ func (c *c15Case) detail(log [][]byte, extra map[string]any) map[string]any {
 // error is the legitimate consequence of an exhausted link budget.
 func (c *c15Case) onError(api, linkOpt string, err error, log [][]byte, budget int64, hasBudget bool) bool {
 	t := c.t
+	if c.perDagBudget && strings.Contains(err.Error(), "budget") {
+		t.ViolateD(api+"/two-dags/budget-not-per-dag", c.detail(log, map[string]any{"budget": budget, "error": err.Error()}),
+			"%s: budget error with MaxTraversalLinks=%d although each of the two Dags needs no more than that on its own: %v", api, budget, err)
+		return false
+	}
 	if hasBudget && strings.Contains(err.Error(), "budget") {
 		// the walker refuses a link load exactly when `budget` links were loaded before (the root load is free)
 		if int64(len(log))-1 == budget {
@@ -422,6 +428,15 @@ func (c *c15Case) okCover(api string, log [][]byte, hasBudget bool) {
 
 func (c *c15Case) runV2(api string) {
 	t := c.t
+	if c.d.Seed%5 == 0 && c.d.Budget == "" && len(c.dag.nodes) > 2 {
+		// a partial DAG behind a lenient link system: one block (not the root) is absent and skipped
+		g := 1 + int(uint64(c.d.Seed>>9)%uint64(len(c.dag.nodes)-1))
+		if g != c.dag.root {
+			c.dag.gone = g
+			defer func() { c.dag.gone = 0 }()
+			t.Cover("v2:partial-dag-with-skipme")
+		}
+	}
 	chooser := traversal.LinkTargetNodePrototypeChooser(c15AnyChooser)
 	if c.d.V2.PBChooser {
 		chooser = c15PBChooser
@@ -473,6 +488,33 @@ func (c *c15Case) runV2(api string) {
 		}
 		if len(pass1) != len(pass2) {
 			t.Cover("v2:counting-and-writing-pass-loads-differ")
+		}
+		// one Writer, a failed attempt (the destination breaks midway), then another attempt on a healthy
+		// destination: the second output is the archive again, whatever the first attempt left behind
+		if good && buf.Len() > 2 {
+			if w2, err := carv2.NewSelectiveWriter(bg, &ls, root, c.sel, opts...); err == nil {
+				log.take()
+				_, ferr := w2.WriteTo(&c15Quota{quota: buf.Len() / 2})
+				log.take()
+				var again bytes.Buffer
+				n2, rerr := w2.WriteTo(lab.PlainWriter{W: &again})
+				retryLog := log.take()
+				if ferr == nil {
+					t.ViolateD(api+"/failing-destination/returned-nil", c.detail(pass2, nil), "%s returned nil although the destination failed after half of the bytes", api)
+				} else if rerr != nil && again.Len() == 0 {
+					t.Cover("writer-reuse-refused") // refusing to reuse the Writer is fine: nothing was announced or written
+				} else if rerr != nil {
+					t.ViolateD(api+"/retry-after-failed-attempt/announced-then-failed", c.detail(pass2, map[string]any{"retry_error": fmt.Sprint(rerr), "written": again.Len()}),
+						"%s on the same Writer after a failed attempt wrote %d bytes (a header announcing the sizes among them) to a healthy destination and then failed: %v", api, again.Len(), rerr)
+				} else {
+					// the second output is judged like any other: header, sizes, blocks of ITS traversal, index
+					if c.checkV2(api+"(retry after a failed attempt)", class, again.Bytes(), retryLog) && n2 != int64(again.Len()) {
+						t.ViolateD(api+"/retry-after-failed-attempt/returned-count", c.detail(retryLog, map[string]any{"returned": n2, "written": again.Len()}), "%s returned %d but wrote %d bytes", api, n2, again.Len())
+					}
+				}
+				t.Cover("failing-destination-probes")
+				t.Cover("writer-reused-after-failed-attempt")
+			}
 		}
 		if good {
 			c.okCover(api, pass2, hasBudget)
@@ -554,6 +596,20 @@ func (q *c15Quota) Write(p []byte) (int, error) {
 	return len(p), nil
 }
 
+func c15Tail(b []byte, from int) []byte {
+	if from < 0 || from > len(b) {
+		return nil
+	}
+	if from > 16 {
+		from -= 16
+	}
+	end := from + 96
+	if end > len(b) {
+		end = len(b)
+	}
+	return b[from:end]
+}
+
 func c15Quotas(total int) []int {
 	if total < 2 {
 		return nil
@@ -617,6 +673,22 @@ func (c *c15Case) runRootSelective() {
 		}
 		budget, hasBudget = c15ResolveBudget(d.Budget, l)
 	}
+	if d.Budget == "per-dag-max" && d.Root.TwoDags {
+		// two Dags under one MaxTraversalLinks: the budget is per traversal, so the larger of the two
+		// needs is enough for both
+		all, _ := c15Selector(c.dag, "all", 0, 0)
+		l1, e1 := c15RefLinkLoads(c.dag, c.sel, d.Root.Once, c15PBChooser)
+		l2, e2 := c15RefLinkLoadsFrom(c.dag, c.second(), all, d.Root.Once, c15PBChooser)
+		if e1 != nil || e2 != nil {
+			t.Inconclusive("reference walk failed (%v, %v); budget case skipped", e1, e2)
+			return
+		}
+		budget, hasBudget = int64(max(l1, l2)), true
+		c.perDagBudget = true
+		if l1 > 0 && l2 > 0 {
+			t.Cover("root:two-dags-under-a-per-dag-budget")
+		}
+	}
 	var opts []carv1.Option
 	linkOpt := "revisit-links"
 	if d.Root.Once {
@@ -637,7 +709,10 @@ func (c *c15Case) runRootSelective() {
 		t.Cover("root:two-dags")
 	}
 	log := &c15Log{}
-	store := c15Store{d: c.dag, log: log}
+	store := c15Store{d: c.dag, log: log, twin: c.d.Seed%2 == 0}
+	if store.twin {
+		t.Cover("root:store-hands-blocks-out-under-a-twin-cid")
+	}
 	want := func(name string) bool { return d.Only == "" || d.Only == name }
 
 	var writeOut []byte
@@ -901,6 +976,9 @@ func genC15(g *mon.G) {
 			d.Budget = budgets[r.Intn(len(budgets))]
 		} else {
 			d.Root.TwoDags = r.Intn(3) == 0
+			if d.Root.TwoDags && r.Intn(2) == 0 {
+				d.Budget = "per-dag-max"
+			}
 		}
 		g.Emit(d)
 	}
